@@ -51,6 +51,35 @@ CHECKS = {
    note='Trusted: Lean kernel, translator py2lean.gen_dispatch, harness. Agreement of two numerical solver paths to tolerance is '
         'observed, not proved (rounding). Two known findings (kkt_chol2 with rank-deficient G; rare ldl2 breakdowns) are listed.',
    technique='Lean 4 proof over a source-generated dispatch model + proved presentation lemmas, with metamorphic solver runs'),
+ 'C01': dict(
+   category='proof',
+   text='The statistics block, stopping test, return dictionaries and in-place rescalings of conelp are regenerated from coneprog.py into '
+        'Lean on every run (every vector statement, over abstract vector spaces and an ordered field). Theorems re-checked against it: the '
+        'optimal return implies the documented residual bounds and gap criterion for the *returned* (1/tau-rescaled) vectors; objective '
+        'fields equal c.x and -h.z-b.y of the returned vectors; result-map and epilogue tables; maxiters exit. A Lean rational checker '
+        '(cone membership proved sound: PSD by LDL witness, SOC, norms through squares) judges what conelp/lp/socp/sdp really return on '
+        'planted problems in all listed presentations, on the caller data, exactly.',
+   design_ref='DESIGN.md 5 C01',
+   note='Trusted: Lean kernel, translator py2lean.gen_decide + LinAlgMachine semantics, the checker driver. Not proved: floating-point '
+        'rounding (allowance feastol*(1+1e-6)+1e-13), the scaling invariant behind gap = s.z (observed, see C07), MOSEK branches.',
+   technique='Lean 4 proof over a source-generated model of the termination block + proved-sound rational certificate checker on real outputs'),
+ 'C02': dict(
+   category='proof',
+   text='Theorems over the generated termination block of conelp: the primal-infeasible return implies h.z+b.y = -1 and the residual bound '
+        'for the rescaled (y,z), the dual-infeasible return implies c.x = -1 and both residual bounds for the rescaled (x,s); result maps '
+        'None the other half; Farkas lemma (a certificate excludes every feasible point) over any ordered field. Planted infeasible and '
+        'unbounded problems run through conelp/lp/socp/sdp/op.solve and every infeasibility status is judged by the Lean checker.',
+   design_ref='DESIGN.md 5 C02',
+   note='Trusted as C01. Cone self-duality <s,z> >= 0 is a hypothesis of the Farkas theorem.',
+   technique='Lean 4 proof over a source-generated model + rational certificate checker on real outputs'),
+ 'C03': dict(
+   category='proof',
+   text='Theorems over the generated statistics block and stopping test of coneqp: optimal implies the QP KKT residual bounds and gap '
+        'criterion; objective fields are 1/2 x.Px+q.x and its Lagrangian form. The Lean checker (optimalOkQP, lower triangle of P only) '
+        'judges what coneqp/qp return on planted QPs (rank-deficient P, no-inequality shortcut, initvals, operators, junk upper triangles).',
+   design_ref='DESIGN.md 5 C03',
+   note='Trusted as C01.',
+   technique='Lean 4 proof over a source-generated model + rational certificate checker on real outputs'),
 }
 REASONS = {}
 def main():
